@@ -53,6 +53,20 @@ func (t *fnTrans) instr(in ssa.Instruction) {
 	case *ssa.ChangeType:
 		v := t.val(in.X)
 		nv := Val{T: t.term(v), Fn: v.Fn, Bnd: v.Bnd}
+		// conversion between two named struct types with the same underlying type (`T(x)`): the SMT sorts differ, rebuild the value field by field
+		if fs, ok := in.X.Type().Underlying().(*types.Struct); ok && !t.S.opaqueStruct(in.X.Type()) && !t.S.opaqueStruct(in.Type()) {
+			from, to := t.S.sortOf(in.X.Type()), t.S.sortOf(in.Type())
+			if from != to {
+				var parts []string
+				for i := 0; i < fs.NumFields(); i++ {
+					parts = append(parts, fmt.Sprintf("(%s_%s %s)", from, sanitize(fs.Field(i).Name()), nv.T))
+				}
+				if len(parts) == 0 {
+					parts = []string{"0"}
+				}
+				nv.T = fmt.Sprintf("(mk_%s %s)", to, strings.Join(parts, " "))
+			}
+		}
 		t.setVal(in, nv)
 	case *ssa.ChangeInterface:
 		t.setVal(in, Val{T: t.term(t.val(in.X))})
